@@ -384,9 +384,9 @@ func runC01(c *Ctx) {
 	r := c.Res
 	r.Rule = "program with >=1 map call or disabled binding, >=2 jobs, run to completion; distinct by (program, order in which jobs finished)"
 	start := time.Now()
-	nGen, nSched := 218, 2
+	nGen, nSched := 150, 2
 	if c.Thorough {
-		nGen, nSched = 3000, 3
+		nGen, nSched = 1200, 3
 	}
 	if v := os.Getenv("C01_NGEN"); v != "" {
 		fmt.Sscan(v, &nGen)
@@ -417,9 +417,9 @@ func runC01(c *Ctx) {
 	}
 	// plain programs (no map call, no `disabled`): the fragment on which the two-phase
 	// resolver model is PROVED to refine den; run under Tier A for the run-time tie
-	nPlain, nStaticOnly := 36, 400
+	nPlain, nStaticOnly := 30, 300
 	if c.Thorough {
-		nPlain, nStaticOnly = 400, 4000
+		nPlain, nStaticOnly = 150, 4000
 	}
 	for i := 0; i < nPlain; i++ {
 		src, st := GenProgram(c.Rng, GenOpts{NoMap: true, NoDisable: true, MaxDepth: 1 + i%3, MaxCalls: 2 + i%4})
@@ -466,7 +466,7 @@ func runC01(c *Ctx) {
 			}
 			r.hist("final:" + final)
 			if strings.HasPrefix(cs.name, "family/narrow-") || strings.HasPrefix(cs.name, "family/disabled-same-stage") ||
-				strings.HasPrefix(cs.name, "family/map-static") {
+				strings.HasPrefix(cs.name, "family/map-") {
 				cls := strings.Join(strings.SplitN(strings.TrimPrefix(cs.name, "family/"), "-", 3)[:2], "-")
 				r.hist("family:" + cls + ":" + final)
 				if final != "complete" && si == cs.specs[0] {
@@ -771,6 +771,29 @@ func c01UnreadableChunkOuts(c *Ctx, specs []*TASpec, results []*C01RunResult, pa
 	fres := c01RunSpecs(fspecs, parallel)
 	for i, res := range fres {
 		r.count("badouts|"+fspecs[i].Src+"|"+fspecs[i].Faults[0].JobKey, true)
+		// the model of doJoin's read (Martian.Resolver.doJoinRead): one unreadable chunk among n
+		// => the join is not launched
+		if m := regexp.MustCompile(`\.chnk(\d+)\.`).FindStringSubmatch(fspecs[i].Faults[0].JobKey); m != nil {
+			vi, _ := strconv.Atoi(m[1])
+			var sb strings.Builder
+			sb.WriteString("(l")
+			for k := 0; k <= vi+1; k++ {
+				if k == vi {
+					sb.WriteString(" u")
+				} else {
+					sb.WriteString(" n")
+				}
+			}
+			sb.WriteString(")")
+			reply := c.Drv.Ask("C01.joinread", sb.String())
+			r.hist("joinread:" + strings.SplitN(reply, "\t", 2)[0])
+			if !strings.HasPrefix(reply, "launched=0") {
+				r.violate(Violation{Kind: "correspondence", Key: "C01:joinread-model",
+					What:   "the model of doJoin's read launches a join although a chunk's outs are unreadable: " + c01Trunc(reply, 120),
+					Input:  map[string]interface{}{"reads": sb.String()},
+					Broken: "join_complete_or_failed"})
+			}
+		}
 		if res.Final != "complete" {
 			r.hist("unreadable-chunk-outs:" + strings.SplitN(res.Final, ":", 2)[0])
 			continue
